@@ -408,7 +408,7 @@ def binop(interp, op, a, b, st, node):
         if r is not None:
             return r
     term = T(name, a.term, b.term)
-    if name == "matmul" and sa is not None and sb is not None and len(sa) == 2 and len(sb) == 1 and isinstance(b.term, Term) and isinstance(a.term, Term):
+    if name == "matmul" and sa is not None and sb is not None and len(sa) == 2 and len(sb) == 1 and isinstance(b.term, Term) and _row_of_table(b.term) and isinstance(a.term, Term) and a.term.op in ("sym", "T", "getitem"):
         # M @ v = v @ M^T for a vector v that is one row / column of a table: one spelling
         at_ = a.term.args[0] if (a.term.op == "T" and len(a.term.args) == 1) else T("T", a.term)
         term = T("matmul", b.term, at_)
